@@ -3,7 +3,7 @@ import Driver.Parse
 /-!
 C07 driver. Case lines (after the leading `C07` token):
 
-* `rpc <shipped|follower|custom> <raft|crdt> <raw> <ops> <self> <self|rN> <overrides> <Svc.Method> => <refused|passed> [detail]`
+* `rpc <shipped|follower|custom> <tr0|tr1> <raft|crdt> <raw> <ops> <self> <self|rN> <overrides> <Svc.Method> => <refused|passed> [detail]`
 * `trust <raft|crdt> <raw> <ops> <self> <p> => <0|1>`
 * `valid <overrides> => <ok|err>`
 * `rep <raw> <ops> <self> <before> <msgs> => <after>`
@@ -64,18 +64,19 @@ def failedNames (cl : List (String × Bool)) : List String := (cl.filter (fun c 
 
 def answerRpc (pre post : List String) : String :=
   match pre, post with
-  | [k, m, raw, ops, self, caller, ovs, ep], o :: _ =>
+  | [k, tr, m, raw, ops, self, caller, ovs, ep], o :: _ =>
     match (do
-      let k ← parseKind k; let m ← parseMode m; let raw ← parseRaw raw; let ops ← listOf parseOp ops
+      let k ← parseKind k; let tr ← (if tr == "tr0" then some false else if tr == "tr1" then some true else none)
+      let m ← parseMode m; let raw ← parseRaw raw; let ops ← listOf parseOp ops
       let self ← self.toNat?; let caller ← parseCaller caller; let ovs ← listOf parseOv ovs
       let o ← if o == "refused" then some Obs.refused else if o == "passed" then some Obs.passed else none
-      pure (k, m, raw, ops, self, caller, ovs, o)) with
+      pure (k, tr, m, raw, ops, self, caller, ovs, o)) with
     | none => "bad-case rpc-parse"
-    | some (k, m, raw, ops, self, caller, ovs, o) =>
+    | some (k, tr, m, raw, ops, self, caller, ovs, o) =>
       if !kindOk k ovs then "bad-case policy-kind-does-not-match-overrides" else
       let registered := Gen.methods.contains ep
       let pol := applyOverrides Gen.policy ovs
-      let i : RpcInput := { kind := k, ts := { mode := m, raw := raw, ops := ops }, self := self,
+      let i : RpcInput := { kind := k, tracing := tr, ts := { mode := m, raw := raw, ops := ops }, self := self,
                             caller := caller, ep := ep, registered := registered }
       let trusted := match caller with
         | .self => true
@@ -84,7 +85,7 @@ def answerRpc (pre post : List String) : String :=
         (match caller with | .self => "self" | .remote _ => if trusted then "trusted" else "untrusted") ++ "/" ++
         (if !registered then "no-endpoint" else
           match Gen.closure.verdict pol ep with | .deny => "closed" | .askTrust => "trusted" | .allow => "open")
-        ++ (if k == .custom then "/custom" else "")
+        ++ (if k == .custom then "/custom" else "") ++ (if tr then "/tracing" else "")
       let failed := failedNames (rpcClauses i o)
       if !failed.isEmpty then "propfail " ++ ",".intercalate failed ++ " arm=" ++ arm else
       let expected : Obs := modelObs i ovs
